@@ -307,6 +307,11 @@ func (p *copyProp) Gen(r *Rand, tier string, idx int) any {
 						cp.LatencyMs[fmt.Sprintf("%s.%d", op, n.ID)] = r.Range(1, 50)
 					}
 				}
+				for _, op := range []string{"cb.OnCopySkipped", "cb.PreCopy", "cb.PostCopy"} {
+					if r.Chance(0.25) {
+						cp.LatencyMs[fmt.Sprintf("%s.%d", op, n.ID)] = r.Range(1, 50)
+					}
+				}
 			}
 		}
 		if r.Chance(0.3) {
